@@ -30,67 +30,99 @@ func Stack.Peek
   ensures[nonempty] s != nil && len(*s) > 0 ==> result1 && result0 == (*s)[len(*s) - 1]
 
 // ---------------------------------------------------------------- C16 (Queue)
-// The Queue is proved against ABSTRACT SEQUENCE contracts of the four List operations it uses.
-// Those contracts are trusted here (they restate container/list's documented sequence semantics);
-// their link to the code is the relational proof of C06 for exactly these functions (re-run under C16).
-// Ghost state per list l (indexed by the list's reference): slen[l] its length, sval[l][i] its i-th value
-// from the front; per element e: elist[e] the list it is in, epos[e] its position.
+// The Queue is proved against ABSTRACT SEQUENCE contracts of the four List operations it uses, and those contracts
+// are themselves PROVED on lists/list.go (no longer trusted): a ghost sequence per list, a representation invariant
+// `linv` tying it to the circular doubly-linked structure, and explicit ghost assignments (`ghostset`) at the exit of
+// PushFront and Remove that shift the sequence. (The same four functions are also proved equivalent to container/list
+// in C06; that relational proof is re-run under C16.)
+// Ghost state per list l (indexed by the list's reference): slen[l] its length, sval[l][i] its i-th value from the
+// front, eseq[l][i] its i-th element; per element e: elist[e] the list it is in, epos[e] its position.
 ghostvar slen 1 int
 ghostvar sval 2 T
 ghostvar elist 1 int
 ghostvar epos 1 int
 
+ghostvar eseq 2 int
+
+// E(l, i): the element at position i of list l; rootp(l): the sentinel
+spec E(l P, i int) P2 = asptr(eseq[ref(l)][i], Element)
+spec rootp(l P) P2 = addr(l.root)
+// representation invariant of an (initialised or zero) list against its ghost sequence
+spec linv(l P) bool = slen[ref(l)] == l.len && l.len >= 0 && (l.root.next == nil ==> l.len == 0) && (l.root.next != nil ==> l.root.next == ite(l.len > 0, E(l, 0), rootp(l)) && l.root.prev == ite(l.len > 0, E(l, l.len - 1), rootp(l))) && (forall i :: {eseq[ref(l)][i]} 0 <= i && i < l.len ==> E(l, i) != nil && E(l, i) != rootp(l) && ref(E(l, i)) < next && E(l, i).list == l && E(l, i).next == ite(i + 1 < l.len, E(l, i + 1), rootp(l)) && E(l, i).prev == ite(i > 0, E(l, i - 1), rootp(l)) && epos[ref(E(l, i))] == i && elist[ref(E(l, i))] == ref(l) && E(l, i).Value == sval[ref(l)][i]) && (forall x :: {elist[x]} elist[x] == ref(l) ==> 0 <= epos[x] && epos[x] < l.len && eseq[ref(l)][epos[x]] == x)
+
 func List.Len
-  trusted container/list semantics: Len is the length of the sequence
-  ensures result == slen[l] && result >= 0
+  property C16
+  requires l != nil && linv(l)
+  ensures result == slen[ref(l)] && result >= 0
 
 func List.Back
-  trusted container/list semantics: Back is the last element of the sequence, nil when empty
-  ensures slen[l] >= 0 && (result == nil) == (slen[l] == 0)
-  ensures result != nil ==> elist[result] == ref(l) && epos[result] == slen[l] - 1 && result.Value == sval[l][slen[l] - 1]
+  property C16
+  requires l != nil && linv(l)
+  ensures slen[ref(l)] >= 0 && (result == nil) == (slen[ref(l)] == 0)
+  ensures result != nil ==> elist[ref(result)] == ref(l) && epos[ref(result)] == slen[ref(l)] - 1 && result.Value == sval[ref(l)][slen[ref(l)] - 1] && result.list == l
+  assigns nothing
 
 func List.PushFront
-  trusted container/list semantics: PushFront inserts the value at position 0 and shifts the rest
-  ensures slen[l] == old(slen[l]) + 1 && sval[l][0] == v
-  ensures forall i :: {sval[l][i]} 1 <= i && i < slen[l] ==> sval[l][i] == old(sval[l][i - 1])
-  assigns heap, ghost(slen, l), ghost(sval, l), ghost(elist), ghost(epos)
+  property C16
+  requires l != nil && linv(l)
+  ghostset eseq[ref(l)] i = ite(i == 0, ref(result), old(eseq[ref(l)][i - 1]))
+  ghostset sval[ref(l)] i = ite(i == 0, v, old(sval[ref(l)][i - 1]))
+  ghostset epos x = ite(x == ref(result), 0, ite(old(elist[x]) == ref(l), old(epos[x]) + 1, old(epos[x])))
+  ghostset elist x = ite(x == ref(result), ref(l), old(elist[x]))
+  ghostset slen x = ite(x == ref(l), old(slen[x]) + 1, old(slen[x]))
+  ensures[inv] linv(l)
+  ensures slen[ref(l)] == old(slen[ref(l)]) + 1 && sval[ref(l)][0] == v
+  ensures forall i :: {sval[ref(l)][i]} 1 <= i && i < slen[ref(l)] ==> sval[ref(l)][i] == old(sval[ref(l)][i - 1])
+  assigns fields(l), objects(Element), ghost(slen, l), ghost(sval, l), ghost(elist), ghost(epos), ghost(eseq, l)
 
+// Remove: the caller's element handle must be consistent with the ghost membership (it is for every element obtained
+// from the list itself): e.list == l exactly when the ghost says e belongs to l
 func List.Remove
-  trusted container/list semantics: Remove deletes the element from the list it belongs to, keeping the order of the rest
+  property C16
+  requires l != nil && e != nil && linv(l) && (e.list == l) == (elist[ref(e)] == ref(l)) && e != rootp(l)
+  ghostset eseq[ref(l)] i = ite(old(elist[ref(e)]) == ref(l) && i >= old(epos[ref(e)]), old(eseq[ref(l)][i + 1]), old(eseq[ref(l)][i]))
+  ghostset sval[ref(l)] i = ite(old(elist[ref(e)]) == ref(l) && i >= old(epos[ref(e)]), old(sval[ref(l)][i + 1]), old(sval[ref(l)][i]))
+  ghostset epos x = ite(old(elist[ref(e)]) == ref(l) && old(elist[x]) == ref(l) && old(epos[x]) > old(epos[ref(e)]), old(epos[x]) - 1, old(epos[x]))
+  ghostset elist x = ite(old(elist[ref(e)]) == ref(l) && x == ref(e), 0, old(elist[x]))
+  ghostset slen x = ite(old(elist[ref(e)]) == ref(l) && x == ref(l), old(slen[x]) - 1, old(slen[x]))
+  ensures[inv] linv(l)
   ensures result == old(e.Value)
-  ensures old(elist[e]) == ref(l) ==> slen[l] == old(slen[l]) - 1 && (forall i :: {sval[l][i]} 0 <= i && i < old(epos[e]) ==> sval[l][i] == old(sval[l][i])) && (forall i :: {sval[l][i]} old(epos[e]) <= i && i < slen[l] ==> sval[l][i] == old(sval[l][i + 1]))
-  ensures old(elist[e]) != ref(l) ==> slen[l] == old(slen[l]) && (forall i :: {sval[l][i]} 0 <= i && i < slen[l] ==> sval[l][i] == old(sval[l][i]))
-  assigns heap, ghost(slen, l), ghost(sval, l), ghost(elist), ghost(epos)
+  ensures old(elist[ref(e)]) == ref(l) ==> slen[ref(l)] == old(slen[ref(l)]) - 1 && (forall i :: {sval[ref(l)][i]} 0 <= i && i < old(epos[ref(e)]) ==> sval[ref(l)][i] == old(sval[ref(l)][i])) && (forall i :: {sval[ref(l)][i]} old(epos[ref(e)]) <= i && i < slen[ref(l)] ==> sval[ref(l)][i] == old(sval[ref(l)][i + 1]))
+  ensures old(elist[ref(e)]) != ref(l) ==> slen[ref(l)] == old(slen[ref(l)]) && (forall i :: {sval[ref(l)][i]} 0 <= i && i < slen[ref(l)] ==> sval[ref(l)][i] == old(sval[ref(l)][i]))
+  assigns fields(l), objects(Element), ghost(slen, l), ghost(sval, l), ghost(elist), ghost(epos), ghost(eseq, l)
 
 // the queue's own view: position 0 is the next value to be dequeued (the back of the list)
 spec qlist(q) int = addr(q.list)
+spec qinv(q) bool = linv(addr(q.list))
 spec qlen(q) int = slen[qlist(q)]
 spec qat(q, i int) T = sval[qlist(q)][slen[qlist(q)] - 1 - i]
 
 func Queue.Len
   property C16
-  requires q != nil && slen[qlist(q)] >= 0
+  requires q != nil && qinv(q)
   ensures result == qlen(q)
 
 func Queue.Enqueue
   property C16
-  requires q != nil && slen[qlist(q)] >= 0
+  requires q != nil && qinv(q)
+  ensures[inv]  qinv(q)
   ensures[len]  qlen(q) == old(qlen(q)) + 1
   ensures[last] qat(q, qlen(q) - 1) == value
   ensures[rest] forall i :: 0 <= i && i < old(qlen(q)) ==> qat(q, i) == old(qat(q, i))
-  assigns heap, ghost(slen), ghost(sval), ghost(elist), ghost(epos)
+  assigns heap, ghost(slen), ghost(sval), ghost(elist), ghost(epos), ghost(eseq)
 
 func Queue.Dequeue
   property C16
-  requires q != nil && slen[qlist(q)] >= 0
+  requires q != nil && qinv(q)
+  ensures[inv]      qinv(q)
   ensures[empty]    old(qlen(q)) == 0 ==> !result1 && result0 == zero(T) && qlen(q) == 0
   ensures[nonempty] old(qlen(q)) > 0 ==> result1 && result0 == old(qat(q, 0)) && qlen(q) == old(qlen(q)) - 1
   ensures[rest]     old(qlen(q)) > 0 ==> (forall i :: 0 <= i && i < qlen(q) ==> qat(q, i) == old(qat(q, i + 1)))
-  assigns heap, ghost(slen), ghost(sval), ghost(elist), ghost(epos)
+  assigns heap, ghost(slen), ghost(sval), ghost(elist), ghost(epos), ghost(eseq)
 
 func Queue.Peek
   property C16
-  requires q != nil && slen[qlist(q)] >= 0
+  requires q != nil && qinv(q)
   ensures[empty]    qlen(q) == 0 ==> !result1 && result0 == zero(T)
   ensures[nonempty] qlen(q) > 0 ==> result1 && result0 == qat(q, 0)
 
